@@ -604,3 +604,74 @@ func ruleSyncUpdate(c *Ctx) {
 			"not reachable from a goroutine started by the server", funcName(f)+" writes the workspace's include tree and is reachable from a goroutine the server starts: updates are then applied in scheduling order instead of notification order, and a request that follows a notification is answered from the state before it")
 	}
 }
+
+// rulePairedFields (I-PAIR): two fields of one struct that hold the same set in two representations grow in
+// the same functions (frozen table, confirmed by reading: AccountIndex.All is the list and AccountIndex.ByPrefix
+// the per-prefix view of the same account names; the completion lookup trusts ByPrefix whenever the prefix key
+// exists, so a name that is only in All is not offered after its parent prefix).
+func rulePairedFields(c *Ctx) {
+	pairs := []struct{ typ, a, b, why string }{
+		{"analyzer.AccountIndex", "All", "ByPrefix", "an account name that is appended to All but not registered under its prefixes in ByPrefix is missing from completion as soon as the user has typed a parent prefix that some other account also has"},
+	}
+	for _, pr := range pairs {
+		grows := map[*ssa.Function]map[string]token.Pos{}
+		for _, f := range c.P.ModuleFuncs() {
+			for _, b := range f.Blocks {
+				for _, ins := range b.Instrs {
+					var fa *ssa.FieldAddr
+					switch x := ins.(type) {
+					case *ssa.Store:
+						if a, ok := x.Addr.(*ssa.FieldAddr); ok {
+							// growth: the stored value is an append (not a fresh make / literal of the constructor)
+							if call, ok := x.Val.(*ssa.Call); ok {
+								if bi, ok := call.Call.Value.(*ssa.Builtin); ok && bi.Name() == "append" {
+									fa = a
+								}
+							}
+						}
+					case *ssa.MapUpdate:
+						if ld, ok := x.Map.(*ssa.UnOp); ok {
+							if a, ok := ld.X.(*ssa.FieldAddr); ok {
+								fa = a
+							}
+						}
+					}
+					if fa == nil {
+						continue
+					}
+					bt := fa.X.Type().Underlying().(*types.Pointer).Elem()
+					if !typeHasSuffix(bt, pr.typ) {
+						continue
+					}
+					name := bt.Underlying().(*types.Struct).Field(fa.Field).Name()
+					if name != pr.a && name != pr.b {
+						continue
+					}
+					if grows[f] == nil {
+						grows[f] = map[string]token.Pos{}
+					}
+					if _, seen := grows[f][name]; !seen {
+						grows[f][name] = ins.Pos()
+					}
+				}
+			}
+		}
+		var fs []*ssa.Function
+		for f := range grows {
+			fs = append(fs, f)
+		}
+		sort.Slice(fs, func(i, j int) bool { return funcName(fs[i]) < funcName(fs[j]) })
+		for _, f := range fs {
+			g := grows[f]
+			_, ha := g[pr.a]
+			_, hb := g[pr.b]
+			pos := g[pr.a]
+			if !ha {
+				pos = g[pr.b]
+			}
+			c.check(ha && hb, "I-PAIR", funcName(f), shortQual(pr.typ)+"."+pr.a+" and "+pr.b+" grow together", pos,
+				"both representations are extended in this function", "only one of "+pr.a+" / "+pr.b+" is extended here: "+pr.why)
+		}
+		c.census("I-PAIR", "functions extending "+shortQual(pr.typ), len(fs), 1)
+	}
+}
